@@ -170,7 +170,7 @@ fn load_relevant_coins<C: ContentAddrStore>(
 
     // add the ones created in this batch
     for tx in txx {
-        if !tx.is_well_formed() {
+        if !tx.is_well_formed() || !totals_fit_u128(tx) {
             return Err(StateError::MalformedTx);
         }
 
@@ -194,6 +194,26 @@ fn load_relevant_coins<C: ContentAddrStore>(
     }
 
     Ok(accum)
+}
+
+/// `Transaction::total_outputs` and `Transaction::weight` add with unchecked `+`: 255 outputs of 2^120 plus
+/// a fee of 2^120 reach exactly 2^128, and so do two covenants whose weights saturate. Such a transaction
+/// is malformed (otherwise: a panic in debug builds, and in release builds a wrapped total that lets the
+/// transaction mint coins, or a wrapped weight that lets it pay a tiny fee).
+fn totals_fit_u128(tx: &Transaction) -> bool {
+    let mut totals: FxHashMap<Denom, u128> = FxHashMap::default();
+    totals.insert(Denom::Mel, tx.fee.0);
+    for output in tx.outputs.iter() {
+        let total = totals.entry(output.denom).or_insert(0);
+        match total.checked_add(output.value.0) {
+            Some(sum) => *total = sum,
+            None => return false,
+        }
+    }
+    tx.covenants
+        .iter()
+        .try_fold(0u128, |sum, cov| sum.checked_add(covenant_weight_from_bytes(cov)))
+        .is_some()
 }
 
 fn extract_input_coins<C: ContentAddrStore>(
